@@ -21,9 +21,13 @@ CLAIMED = {
         "ranks_valid / quantile_levels_valid / ranks_mono / npQuantile_mono / unit_ordered / unit_nested / agg_straddle / agg_nested / "
         "margin_bounded are proved for every B >= 2, every level in (0,1), every list of draws and every group. _get_quantiles and the "
         "+-0.001 lines are re-translated from /repo/src on every run and tied to the model by bridge lemmas (rfl); the aggregation and "
-        "interval construction are tied by running the real methods and the Lean model on generated frames with assigned draws.",
-        "Trusted: Lean kernel + standard axioms; compute_bootstrap_errors is an oracle (only its clip invariant is assumed and "
-        "range-checked); float vs exact handled by 1e-9 tolerance and a counted boundary rule.",
+        "interval construction are tied by running the real methods and the Lean model on generated frames with assigned draws. The clip "
+        "stage of compute_bootstrap_errors (the six arrays the model keeps) and the clip bounds of _generate_nonreporting_bounds are translated "
+        "from source; source_clip_draws / source_clip_point / source_draws_feasible prove that every stored draw has a non-negative turnout and "
+        "a margin within +- turnout for every raw draw, so the hypotheses of margin_bounded hold for the source as written; the contest-effect "
+        "decomposition (_estimate_epsilon / _estimate_delta) is modelled (BootErr) with five theorems and a differential stage.",
+        "Trusted: Lean kernel + standard axioms; the sampling and regression inside compute_bootstrap_errors remain an oracle (raw draws are "
+        "universally quantified leaves of the clip-stage theorems); float vs exact handled by 1e-9 tolerance and a counted boundary rule.",
         "DESIGN.md section 5 C06",
     ),
     "C07": (
@@ -160,7 +164,10 @@ CLAIMED = {
         "for every combination of options, environment, estimator, request lists and gate outcome. The f-string key templates, the four "
         "save flags, the default, the APP_ENV guards, the gaussian write guard and the position of the live-results write relative to the "
         "gate are re-read from /repo/src each run (bridge lemmas by rfl). Each configuration (incl. two-call histories on one client) runs "
-        "in its own process with boto3.client replaced before import; ordered keys and local files are compared with the model.",
+        "in its own process with boto3.client replaced before import; ordered keys and local files are compared with the model. A storage "
+        "service that does not acknowledge one put is part of the model (runWithFault): ends_normally_all_stored / not_enough_still_saved / "
+        "fault_aborts, tied to S3Util.put's raise, the absence of a handler in get_estimates and the reading of APP_ENV by shape anchors and "
+        "to the code by fault injection at every put position (APP_ENV set / unset).",
         "Trusted: the recording client; S3CsvUtil.put's '.csv' suffix rule; parameters free of whitespace.",
         "DESIGN.md section 5 C18",
     ),
@@ -203,7 +210,9 @@ CLAIMED = {
         "sort_perm_invariant are proved of the model (fresh generators per run, summary reads only, de-duplicate-then-sort). bridge_all_seeded "
         "is re-checked against a scan of every random call site reachable from get_estimates on each run. Histories of estimate / summary "
         "calls with repeated arguments run on one client, on fresh clients and in fresh processes under several PYTHONHASHSEED values; all "
-        "digests for equal arguments must agree; the summary asked repeatedly on near-tied contests must not move.",
+        "digests for equal arguments must agree; the summary asked repeatedly on near-tied contests must not move. A static scan "
+        "(bridge_no_uninitialised_memory) and a stage that hands out np.empty buffers with two different contents cover dependence on "
+        "uninitialised memory.",
         "Partial: hash seeds, process freshness and BLAS threading are runtime behaviour (exhibited by subprocess runs, not proved).",
         "DESIGN.md section 5 C12",
     ),
